@@ -19,7 +19,9 @@
  */
 #include "json.h"
 
+#include <cstdint>
 #include <fstream>
+#include <limits>
 
 #include <tbox/base/json.hpp>
 #include <tbox/base/assert.h>
@@ -39,7 +41,11 @@ bool Get(const Json &js, bool &field_value)
 bool Get(const Json &js, unsigned int &field_value) {
   if (!js.is_number_unsigned())
       return false;
-  field_value = js.get<unsigned int>();
+  //! 超出 unsigned int 范围的值不能取，否则会被截断成另一个数
+  auto value = js.get<uint64_t>();
+  if (value > std::numeric_limits<unsigned int>::max())
+      return false;
+  field_value = static_cast<unsigned int>(value);
   return true;
 }
 
@@ -63,6 +69,15 @@ bool Get(const Json &js,int &field_value)
 {
     if (!js.is_number_integer())
         return false;
+    //! 超出 int 范围的值不能取，否则会被截断成另一个数（如 4294967297 变成 1）
+    if (js.is_number_unsigned()) {
+        if (js.get<uint64_t>() > static_cast<uint64_t>(std::numeric_limits<int>::max()))
+            return false;
+    } else {
+        auto value = js.get<int64_t>();
+        if (value < std::numeric_limits<int>::min() || value > std::numeric_limits<int>::max())
+            return false;
+    }
     field_value = js.get<int>();
     return true;
 }
